@@ -20,9 +20,12 @@ inductive Atom where
   deriving DecidableEq, Repr, Inhabited
 
 /-- `list`/`dict`: JSON containers; `tup`: a Python tuple stored inside the value (JSON-encodable, immutable, never a
-    wrapper); `iarr`/`sarr`: value of an IntArray / StrArray attribute (TrackedArray), root only. -/
+    wrapper); `iarr`/`sarr`: value of an IntArray / StrArray attribute (TrackedArray), root only;
+    `flist`/`fdict`: a wrapper that belongs to another object or attribute (handed over by the program; `make` re-binds it,
+    i.e. copies it into wrappers of this object, if the code does what it does today — probed: `Cfg.rebinds`). -/
 inductive Kind where
   | list | dict | tup | iarr | sarr
+  | flist | fdict        -- a TrackedList / TrackedDict bound to ANOTHER object or attribute: it notifies somebody else
   deriving DecidableEq, Repr, Inhabited
 
 inductive T where
@@ -111,6 +114,8 @@ structure Cfg where
   dictOv : List DM
   arrOv : List LM
   tupleMode : TupleMode
+  rebinds : Bool              -- `make` turns a wrapper bound to another object/attribute into wrappers bound to this one (probed)
+  assignRebinds : Bool        -- `obj.attr = <wrapper of another object/attribute>`: `validate` hands it to `make` (probed on a real entity)
   iterUnwrapped : List (IM × IterKind)
   notifyOnError : Bool        -- does `tracked_method` call `_changed_()` when the built-in method raised (try/finally)
   deriving Repr, Inhabited
@@ -126,7 +131,8 @@ def Cfg.covers (cfg : Cfg) : Bool :=
     && LM.all.all (fun m => cfg.arrOv.contains m)
 
 /-- every value that can be handed in ends up wrapped, and a change that ends in an exception is notified too -/
-def Cfg.wrapsAll (cfg : Cfg) : Bool := cfg.makeTuple && cfg.iterUnwrapped.isEmpty && cfg.notifyOnError
+def Cfg.wrapsAll (cfg : Cfg) : Bool :=
+  cfg.makeTuple && cfg.iterUnwrapped.isEmpty && cfg.notifyOnError && cfg.rebinds && cfg.assignRebinds
 
 /-! ### wrapping, unwrapping, serialisation -/
 
@@ -138,6 +144,8 @@ def make (cfg : Cfg) : T → T
       | .leave => .node .tup w xs
       | .items => .node .tup w (makeL cfg xs)
       | .list => .node .list true (makeL cfg xs)
+  | .node .flist w xs => if cfg.rebinds then .node .list true (makeL cfg xs) else .node .flist w xs
+  | .node .fdict w xs => if cfg.rebinds then .node .dict true (makeL cfg xs) else .node .fdict w xs
   | .node k _ xs => .node k true (makeL cfg xs)
 def makeL (cfg : Cfg) : Items → Items
   | [] => []
@@ -149,6 +157,8 @@ mutual
 def allW : T → Bool
   | .atom _ => true
   | .node .tup _ xs => allWL xs
+  | .node .flist _ _ => false
+  | .node .fdict _ _ => false
   | .node _ w xs => w && allWL xs
 def allWL : Items → Bool
   | [] => true
@@ -157,6 +167,8 @@ end
 
 def Kind.ser : Kind → Kind
   | .tup => .list
+  | .flist => .list
+  | .fdict => .dict
   | k => k
 
 mutual
@@ -174,6 +186,8 @@ mutual
 def isPlain : T → Bool
   | .atom _ => true
   | .node .tup _ _ => false
+  | .node .flist _ _ => false
+  | .node .fdict _ _ => false
   | .node _ w xs => !w && isPlainL xs
 def isPlainL : Items → Bool
   | [] => true
@@ -194,7 +208,11 @@ def atomEq : Atom → Atom → Bool
 def lookup (k : String) (xs : Items) : Option T := (xs.find? (fun p => p.1 == k)).map (·.2)
 
 def Kind.isSeq : Kind → Bool
-  | .list | .iarr | .sarr => true
+  | .list | .iarr | .sarr | .flist => true
+  | _ => false
+
+def Kind.isMap : Kind → Bool
+  | .dict | .fdict => true
   | _ => false
 
 mutual
@@ -205,7 +223,7 @@ def pyEq : T → T → Bool
   | .node k _ xs, .node k' _ ys =>
       if k.isSeq && k'.isSeq then pyEqL xs ys
       else if k == .tup && k' == .tup then pyEqL xs ys
-      else if k == .dict && k' == .dict then xs.length == ys.length && pyEqD xs ys
+      else if k.isMap && k'.isMap then xs.length == ys.length && pyEqD xs ys
       else false
 def pyEqL : Items → Items → Bool
   | [], [] => true
@@ -227,7 +245,7 @@ def sameJson : T → T → Bool
   | .atom _, .node _ _ _ => false
   | .node _ _ _, .atom _ => false
   | .node k _ xs, .node k' _ ys =>
-      k == k' && (if k == .dict then xs.length == ys.length && sameD xs ys else sameL xs ys)
+      k == k' && (if k.isMap then xs.length == ys.length && sameD xs ys else sameL xs ys)
 def sameL : Items → Items → Bool
   | [], [] => true
   | [], _ :: _ => false
@@ -244,6 +262,8 @@ end
 
 inductive Err where
   | index | key | value | type | nav
+  | session        -- DatabaseSessionIsOver (`_attr_changed_` / `__set__`: the cache is not alive)
+  | deleted        -- OperationWithDeletedObjectError
   deriving DecidableEq, Repr, Inhabited
 
 /-- Python index → position (`IndexError` = none) -/
@@ -437,6 +457,42 @@ def DMut.prep (cfg : Cfg) : DMut → DMut
   | .ior k ps => .ior k (makePairs cfg .ior k ps)
   | m => m
 
+mutual
+/-- `make` done by ANOTHER object's wrapper: the result belongs to that object (for this attribute: not wrapped) -/
+def makeF (cfg : Cfg) : T → T
+  | .atom a => .atom a
+  | .node .tup w xs => match cfg.tupleMode with
+      | .leave => .node .tup w xs
+      | .items => .node .tup w (makeFL cfg xs)
+      | .list => .node .flist false (makeFL cfg xs)
+  | .node .list w xs => if w && !cfg.rebinds then .node .list w xs else .node .flist false (makeFL cfg xs)
+  | .node .dict w xs => if w && !cfg.rebinds then .node .dict w xs else .node .fdict false (makeFL cfg xs)
+  | .node .flist _ xs => .node .flist false (makeFL cfg xs)
+  | .node .fdict _ xs => .node .fdict false (makeFL cfg xs)
+  | .node k w xs => .node k w xs
+def makeFL (cfg : Cfg) : Items → Items
+  | [] => []
+  | (k, v) :: xs => (k, makeF cfg v) :: makeFL cfg xs
+end
+
+def LMut.prepF (cfg : Cfg) : LMut → LMut
+  | .setitem i v => .setitem i (makeF cfg v)
+  | .setslice a b k vs => .setslice a b k (if cfg.wraps .setslice k then vs.map (makeF cfg) else vs)
+  | .setsliceStep a b st k vs => .setsliceStep a b st k (if cfg.wraps .setslice k then vs.map (makeF cfg) else vs)
+  | .append v => .append (makeF cfg v)
+  | .extend k vs => .extend k (if cfg.wraps .extend k then vs.map (makeF cfg) else vs)
+  | .insert i v => .insert i (makeF cfg v)
+  | .iadd k vs => .iadd k (if cfg.wraps .iadd k then vs.map (makeF cfg) else vs)
+  | m => m
+
+def DMut.prepF (cfg : Cfg) : DMut → DMut
+  | .setitem k v => .setitem k (makeF cfg v)
+  | .update k ps kw => .update k (if cfg.wraps .update k then ps.map (fun p => (p.1, makeF cfg p.2)) else ps)
+      (if cfg.wraps .update .kw then kw.map (fun p => (p.1, makeF cfg p.2)) else kw)
+  | .setdefault k v => .setdefault k (makeF cfg v)
+  | .ior k ps => .ior k (if cfg.wraps .ior k then ps.map (fun p => (p.1, makeF cfg p.2)) else ps)
+  | m => m
+
 /-- TrackedArray.validate_item for JSON atoms -/
 def atomOk : Kind → T → Bool
   | .iarr, .atom (.num _) => true
@@ -472,6 +528,11 @@ def applyL (cfg : Cfg) (m : LMut) : T → Except (Err × Bool) (T × Bool)
       match lEffect m xs with
       | .ok xs' => .ok (.node .sarr w xs', tr && notifies cfg m)
       | .error e => .error (e, tr && cfg.notifyOnError)
+  | .node .flist w xs =>
+      -- a list that belongs to another object: its tracked method wraps the arguments for THAT object and notifies it
+      match lEffect (m.prepF cfg) xs with
+      | .ok xs' => .ok (.node .flist w xs', false)
+      | .error e => .error (e, false)
   | _ => .error (.type, false)
 
 def applyD (cfg : Cfg) (m : DMut) : T → Except (Err × Bool) (T × Bool)
@@ -480,6 +541,10 @@ def applyD (cfg : Cfg) (m : DMut) : T → Except (Err × Bool) (T × Bool)
       match dEffect (if tr then m.prep cfg else m) xs with
       | .ok xs' => .ok (.node .dict w xs', tr)
       | .error e => .error (e, tr && cfg.notifyOnError)
+  | .node .fdict w xs =>
+      match dEffect (m.prepF cfg) xs with
+      | .ok xs' => .ok (.node .fdict w xs', false)
+      | .error e => .error (e, false)
   | _ => .error (.type, false)
 
 /-! ### navigation (`obj.data['a'][0]…`; an alias is the path of the object it refers to) -/
@@ -490,9 +555,8 @@ inductive Step where
   deriving Repr, Inhabited
 
 def locate : Step → Kind → Items → Option Nat
-  | .idx i, k, xs => if k == .dict then none else normIdx i xs.length
-  | .key s, .dict, xs => xs.findIdx? (fun p => p.1 == s)
-  | .key _, _, _ => none
+  | .idx i, k, xs => if k.isMap then none else normIdx i xs.length
+  | .key s, k, xs => if k.isMap then xs.findIdx? (fun p => p.1 == s) else none
 
 def modAt (f : T → Except (Err × Bool) (T × Bool)) : List Step → T → Except (Err × Bool) (T × Bool)
   | [], t => f t
@@ -521,7 +585,13 @@ def getAt : List Step → T → Option T
 /-- `obj._status_` as far as this attribute's bookkeeping goes -/
 inductive Status where
   | created | loaded | inserted | updated | modified
+  | deleted        -- `obj.delete()` in a live session ('marked_to_delete')
+  | over           -- the session of the object is over (it was committed and left); the object and its wrappers live on
   deriving DecidableEq, Repr, Inhabited
+
+def Status.alive : Status → Bool
+  | .deleted | .over => false
+  | _ => true
 
 structure St where
   doc : T            -- obj._vals_[attr]
@@ -552,14 +622,23 @@ inductive Op where
   | refresh (v : T)                 -- volatile attribute after a save: `_update_dbvals_` drops the value, the next access reads it
                                     -- again from the database, which returns `v`
   | reload (v : T)                  -- commit, end of session; a new session reads the value: the database returns `v`
+  | endSession                      -- commit, end of session; the program keeps the object and its wrappers
+  | delete                          -- obj.delete()
   deriving Repr, Inhabited
+
+/-- `JsonConverter.validate`: a wrapper of this object and attribute is kept, everything else goes through `make` — a wrapper
+    of another object too (probed: `assignRebinds`) -/
+def assigned (cfg : Cfg) : T → T
+  | .node .flist w xs => if cfg.assignRebinds then make cfg (.node .flist w xs) else .node .flist w xs
+  | .node .fdict w xs => if cfg.assignRebinds then make cfg (.node .fdict w xs) else .node .fdict w xs
+  | v => make cfg v
 
 def St.load (cfg : Cfg) (dbv : T) (vol : Bool := false) : St :=
   { doc := make cfg dbv, dirty := false, db := dbv, status := .loaded, volatile := vol }
 
 /-- `E(attr=v)`: `validate` wraps the value; the object is 'created', `_wbits_` is None, there is no row yet -/
 def St.create (cfg : Cfg) (v : T) (vol : Bool := false) : St :=
-  { doc := make cfg v, dirty := false, db := .atom .null, status := .created, volatile := vol }
+  { doc := assigned cfg v, dirty := false, db := .atom .null, status := .created, volatile := vol }
 
 /-- `_save_created_` writes every value, `_save_updated_` the columns whose bit is set -/
 def doFlush (s : St) : St :=
@@ -568,22 +647,30 @@ def doFlush (s : St) : St :=
   | .modified => { s with db := if s.dirty then ser s.doc else s.db, dirty := false, status := .updated }
   | _ => s
 
-def notified (s : St) (n : Bool) : St := if n then attrChanged s else s
+/-- what `_attr_changed_` / `__set__` raise for an object whose session is over or that was deleted (in this order) -/
+def deadErr (s : St) : Err := if s.status == .over then .session else .deleted
+
+/-- after the built-in method has done its work: `_changed_()` -> `_attr_changed_`, which raises for a dead object (the
+    change made in memory stays) -/
+def notified (s : St) (n : Bool) (e : Option Err) : St × Option Err :=
+  if n then (if s.status.alive then (attrChanged s, e) else (s, some (deadErr s))) else (s, e)
 
 def step (cfg : Cfg) (s : St) : Op → St × Option Err
   | .lmut p m => match modAt (applyL cfg m) p s.doc with
-      | .ok (d, n) => (notified { s with doc := d } n, if m.raises then some .type else none)
-      | .error (e, n) => (notified s n, some e)
+      | .ok (d, n) => notified { s with doc := d } n (if m.raises then some .type else none)
+      | .error (e, n) => notified s n (some e)
   | .dmut p m => match modAt (applyD cfg m) p s.doc with
-      | .ok (d, n) => (notified { s with doc := d } n, none)
-      | .error (e, n) => (notified s n, some e)
+      | .ok (d, n) => notified { s with doc := d } n none
+      | .error (e, n) => notified s n (some e)
   | .read p => (s, if (getAt p s.doc).isSome then none else some .nav)
-  | .touch => (attrChanged s, none)
-  | .assign v => (attrChanged { s with doc := make cfg v }, none)
-  | .other => (if s.status != .created then { s with status := .modified } else s, none)
+  | .touch => notified s true none
+  | .assign v => if s.status.alive then (attrChanged { s with doc := assigned cfg v }, none) else (s, some (deadErr s))
+  | .other => if s.status.alive then (if s.status != .created then { s with status := .modified } else s, none) else (s, some (deadErr s))
   | .flush => (doFlush s, none)
+  | .endSession => if s.status.alive then ({ doFlush s with status := .over }, none) else (s, some (deadErr s))
+  | .delete => if s.status.alive then ({ s with status := .deleted, dirty := false }, none) else (s, some (deadErr s))
   | .refresh v =>
-      if s.volatile && !s.dirty && s.status != .created && isPlain v && sameJson v s.db
+      if s.volatile && !s.dirty && s.status != .created && s.status.alive && isPlain v && sameJson v s.db
       then ({ s with doc := make cfg v, db := v }, none) else (s, some .nav)
   | .reload v =>
       -- the database returns the document that was written, up to the order of object keys
@@ -598,7 +685,7 @@ def run (cfg : Cfg) : List Op → St → St
 def Op.argsW (cfg : Cfg) : Op → Bool
   | .lmut _ m => (m.prep cfg).args.all allW && notifies cfg m
   | .dmut _ m => (m.prep cfg).args.all allW
-  | .assign v => allW (make cfg v)
+  | .assign v => allW (assigned cfg v)
   | _ => true
 
 mutual
@@ -606,6 +693,8 @@ mutual
 def tupFree : T → Bool
   | .atom _ => true
   | .node .tup _ _ => false
+  | .node .flist _ _ => false
+  | .node .fdict _ _ => false
   | .node _ _ xs => tupFreeL xs
 def tupFreeL : Items → Bool
   | [] => true
